@@ -33,7 +33,7 @@ class Prover:
     def witness(self, what=""):
         """the asserted point is reached with the assumptions: must be sat"""
         t0 = time.time()
-        self.s.set("timeout", max(self.timeout_ms, 30000))
+        self.s.set("timeout", getattr(self, "witness_timeout_ms", None) or max(self.timeout_ms, 30000))
         r = self.s.check()
         self.queries += 1
         self.solver_s += time.time() - t0
